@@ -23,6 +23,7 @@ impl BlockMap {
 }
 pub struct FunctionCompiler {
     pub builder: FunctionBuilder,
+    pub ptr_ty: types::Type,
     pub exits: BlockMap,
     pub continues: BlockMap,
     pub defer_stack: Vec<DeferFrame>,
@@ -300,5 +301,55 @@ MUTANTS = [
                 }''', 'violation'),
     (F, 'if !no_eval || scope_id.is_some() {\n                    debug_assert_eq!', 'if !no_eval && scope_id.is_some() {\n                    debug_assert_eq!', 'violation'),
     (F, '            used_frames.push(self.defer_stack.pop().unwrap());\n        }\n\n        self.defer_stack.extend(used_frames.into_iter().rev());', '            used_frames.push(self.defer_stack.pop().unwrap());\n        }\n', 'violation'),
+    (F, '''                    self.break_to_label(None, label);
+                } else if union_ty.is_optional() {''', '''                    let exit_block = self.exits[&label];
+                    self.builder.ins().jump(exit_block, &[]);
+                } else if union_ty.is_optional() {''', 'violation'),
     (F, '// run all the defers from here, backwards to the one we are breaking out of', '// run the defers from here back to the one we are breaking out of', 'ok'),
 ]
+
+# ---- `.try` propagation: the failing branch (R5: statement range lifted) ---------------------------
+u.shim('intern.rs')
+u.raw('''
+// shims for the failing branch of `.try` (ASSUMED shapes: only what the lifted text names)
+pub enum Ty { ErrorUnion { error_ty: Intern<Ty>, payload_ty: Intern<Ty> }, Other }
+pub uninterp spec fn ty_is_optional(t: Ty) -> bool;
+pub uninterp spec fn ty_abs(t: Ty) -> Ty;
+impl Ty {
+    #[verifier::external_body] pub fn is_zero_sized(&self) -> (r: bool) { unimplemented!() }
+    #[verifier::external_body] pub fn is_optional(&self) -> (r: bool) ensures r == ty_is_optional(*self) { unimplemented!() }
+    #[verifier::external_body] pub fn absolute_ty(&self) -> (r: &Ty) ensures *r == ty_abs(*self) { unimplemented!() }
+}
+// callees that build the value handed to the target block: they emit value code at the insertion
+// point but compile no deferred expression and do not touch the frames (ASSUMED)
+#[verifier::external_body]
+pub fn create_nil_value(builder: &mut FunctionBuilder, ptr_ty: types::Type, option_ty: Intern<Ty>, memory: Option<u8>) -> (r: Value) { unimplemented!() }
+#[verifier::external_body]
+pub fn unwrap_sum_ty(builder: &mut FunctionBuilder, union_ptr: Value, union_ty: Intern<Ty>, payload_ty: Intern<Ty>) -> (r: Option<Value>) { unimplemented!() }
+impl FunctionCompiler {
+    #[verifier::external_body]
+    pub fn cast(&mut self, val: Option<Value>, cast_from: Intern<Ty>, cast_to: Intern<Ty>) -> (r: Option<Value>)
+        ensures final(self).emitted == old(self).emitted, final(self).defer_stack == old(self).defer_stack, final(self).live == old(self).live,
+            final(self).exits == old(self).exits, final(self).continues == old(self).continues, final(self).ptr_ty == old(self).ptr_ty
+    { unimplemented!() }
+}
+''')
+NOASSERT = Rewrite('R6', r'assert(?:_eq)?!\((?:[^;]|;(?!\n))*?\);\n', '\n', count=None, why='`assert!(..)` dropped: a failed assertion aborts compilation, it emits nothing')
+SUPER = Rewrite('R4', r'super::(create_nil_value|unwrap_sum_ty)\(', r'\1(', count=None, why='module path dropped (single file)')
+EXITS_ANY = Rewrite('R4', r'self\.exits\[&label\]', 'self.exits.at(&label)', count=None, why='Index on FxHashMap -> shim read `at`')
+u.extract(F, "impl FunctionCompiler<'_>::fn compile_expr_with_args", key='try_fail', wrap=IMPLF, rewrites=[NOASSERT, SUPER, EXITS_ANY],
+          lift=dict(start_at='if referenced_block_ty.is_zero_sized() {', end_before='\n\n                self.builder.switch_to_block(ok_block);',
+                    sig='''fn try_fail(&mut self, label: ScopeId, union: Value, union_ty: Intern<Ty>, referenced_block_ty: Intern<Ty>)''',
+                    why='the failing branch of the Expr::Propagate (`.try`) arm of compile_expr_with_args lifted into a method; assumed path condition: label names the enclosing block the failure propagates to'),
+          contract='''
+    requires
+        frames_ok(*old(self)), old(self).live@.contains(label), old(self).exits.m@.dom().contains(label),
+        // the operand is an optional or an error union (asserted by the arm)
+        ty_is_optional(*union_ty.0) || ty_abs(*union_ty.0) is ErrorUnion,
+    ensures
+        // a failing `.try` leaves every block nested in the target block: their defers run,
+        // innermost first, whatever value is handed over
+        exists|k: int| #[trigger] frame_of(old(self).defer_stack@, label, k)
+            && final(self).emitted@ == old(self).emitted@ + unwind(old(self).defer_stack@, k + 1, old(self).defer_stack@.len() as int),
+        final(self).defer_stack@ == old(self).defer_stack@,
+''')
